@@ -302,7 +302,9 @@ func (r *testResults) report(printer internal.Printer) bool {
 	if expectedFailures > 0 {
 		printer.Printf("(Another %d failed as expected due to being known failures/flakes.)", expectedFailures)
 	}
-	return failed == 0
+	// Cases that could not be run do not count as failed, but the run as a
+	// whole cannot be considered successful if some cases were never run.
+	return failed == 0 && couldNotRun == 0
 }
 
 type testOutcome struct {
